@@ -91,7 +91,23 @@ def drive(case: dict):
         else:
             accepted.append(neutral)
 
+    reenter = case.get("reenter")
     for i, st in enumerate(seq):
+        if reenter and i > pos:
+            # the caller hands the remaining statements to the integration's stream_frames()
+            if api == "generic":
+                from pyjelly.integrations.generic import serialize as ser  # noqa: PLC0415
+            else:
+                from pyjelly.integrations.rdflib import serialize as ser  # noqa: PLC0415
+            rest = [to_api(x, api) for x in seq[i:]]
+            try:
+                for fr in ser.stream_frames(stream, (x for x in rest)):
+                    emit(fr)
+            except Exception as e:  # noqa: BLE001
+                raised_at.extend((j, type(e).__name__) for j in range(i, len(seq)))
+            else:
+                accepted.extend(T.norm_st(x) for x in seq[i:])
+            break
         if i == pos:
             bad = mutate(st, slot, cause, nested)
             if cls == "graph" and cause == "short_tuple":
@@ -195,6 +211,8 @@ def shard(job) -> dict:
             variants = [base]
             if n <= 2 and frame_size == 250:
                 variants += [{**base, "ns_after": iri} for iri in NS_AFTER]
+            if pos < n - 1 and frame_size == 250 and cls != "graph" and n <= 3:
+                variants.append({**base, "reenter": True})
             for case in variants:
                 acc.evals += 1
                 try:
